@@ -9,6 +9,7 @@ func fixedCases() []jcase {
 	cs = append(cs, fixedFloat()...)
 	cs = append(cs, fixedStr()...)
 	cs = append(cs, fixedBlock()...)
+	cs = append(cs, fixedLongStr()...)
 	return cs
 }
 
@@ -24,8 +25,10 @@ func genCase(r *rand.Rand, big bool) jcase {
 		return genBool(r, big)
 	case x < 82:
 		return genFloat(r, big)
-	case x < 88:
+	case x < 86:
 		return genStr(r)
+	case x < 88:
+		return genLongStr(r)
 	default:
 		return genBlock(r, big)
 	}
